@@ -297,6 +297,13 @@ func genDecHistory(t *rapid.T, x *decExec, o decOpts) {
 				nc := genDCfg(t)
 				x.step(DOp{Op: "reinit", Cfg: &nc})
 				cc = x.cc
+			case 2:
+				// an Init that is refused (the error is returned) leaves the
+				// value as it was; the caller carries on with it
+				w := x.cc.WindowSize
+				bad := rapid.SampledFrom([]DCfg{{WindowSize: w, BufferSize: w}, {WindowSize: w + 1, BufferSize: w}, {WindowSize: 8, BufferSize: 4},
+					{WindowSize: -1, BufferSize: 16}, {WindowSize: 4, BufferSize: -5}, {WindowSize: 1, BufferSize: 1}}).Draw(t, "refusedCfg")
+				x.step(DOp{Op: "reinit", Cfg: &bad})
 			default:
 				x.step(DOp{Op: "reset"})
 			}
